@@ -69,7 +69,7 @@ Section Leg.
     { intros E. rewrite E in J4. apply list_Z_eqb_spec; auto. }
     assert (H5 : forall u, In u (rc_units cfg) -> is_active list_Z_eqb s u = false ->
                            cellof_of clx u = cellof_of cl u).
-    { intros u Hu Ha. specialize (J5 u Hu). unfold is_active in Ha. rewrite Ha in J5.
+    { intros u Hu Ha. specialize (J5 u Hu). cbv beta in J5. unfold is_active in Ha. rewrite Ha in J5.
       apply list_Z_eqb_spec; auto. }
     assert (H6 : forall a, active_id s = Some a -> a <> ol_nid l -> cellof_of clx a = cellof_of cl a).
     { intros a Ea Hne. rewrite Ea in J6. destruct (list_Z_eqb a (ol_nid l)) eqn:E.
